@@ -476,7 +476,7 @@ func runErrMsgs(c *Ctx, r *Result, rule string, pn string, min int) {
 		if nonEmpty {
 			o.Verdict, o.Reason = Discharged, "declared error type has a non-empty message"
 		} else {
-			o.Verdict, o.Reason = Finding, "error type " + cst.Name() + " has no (or an empty) message: Error() would report 'unknown error type'"
+			o.Verdict, o.Reason = Finding, "error type "+cst.Name()+" has no (or an empty) message: Error() would report 'unknown error type'"
 		}
 		r.Add(o)
 	}
@@ -504,7 +504,7 @@ func runDateTables(c *Ctx, r *Result, rule string) {
 		if _, has := keys[cst.Val().ExactString()]; has {
 			o.Verdict, o.Reason = Discharged, "component has a default presentation format"
 		} else {
-			o.Verdict, o.Reason = Finding, "component " + cst.Name() + " has no default format: a marker without a presentation modifier gets an empty format"
+			o.Verdict, o.Reason = Finding, "component "+cst.Name()+" has no default format: a marker without a presentation modifier gets an empty format"
 		}
 		r.Add(o)
 	}
@@ -757,7 +757,7 @@ func runJSONLiterals(c *Ctx, r *Result, rule string) {
 						if assigned == word {
 							o.Verdict, o.Reason = Discharged, "literal "+word+" denotes "+assigned
 						} else {
-							o.Verdict, o.Reason = Finding, "literal " + word + " denotes " + assigned
+							o.Verdict, o.Reason = Finding, "literal "+word+" denotes "+assigned
 						}
 						r.Add(o)
 					}
